@@ -197,3 +197,60 @@ def scheduler_model_phase(pid, tier, seed):
             open(path, "w").write("schedmodel %d %d %d %d\n%s\n" % (r["n"], r["w"], r["relax"], r["P"], r["violation"]))
             out["violations"].append((path, {"v": "fail", "sig": "model:" + r["violation"][:60], "detail": r["violation"], "f": {}}))
     return out
+
+
+# ---------------------------------------------------------------------------------------------- free-running stress phase
+def star_forest_case(pid, n, P, hubs, seed, prec="d"):
+    """diagonal + one entry per leaf column in a hub column: n-hubs one-column leaf panels hang under few parents (the hubs form
+    a chain), so that many siblings finish at the same moment; free-running threads, sparse oracles only ('light')"""
+    import random
+    rnd = random.Random(seed)
+    ent = [(i, i, 2.0 + rnd.random(), 0.0) for i in range(n)]
+    for i in range(n - hubs):
+        ent.append((i, n - hubs + rnd.randrange(hubs), 0.5 * rnd.random() + 0.1, 0.0))
+    for k in range(n - hubs, n - 1):
+        ent.append((k, k + 1, 0.3, 0.0))
+    ent.sort(key=lambda e: (e[1], e[0]))
+    s = {"prec": prec, "n": n, "m": n, "stype": "NC", "order": "0", "panel": rnd.choice([1, 1, 2]), "relax": 1, "maxsuper": rnd.choice([1, 4]), "rowblk": 200, "colblk": 100,
+         "P": P, "sched": "free", "strategy": "uniform", "sparam": rnd.choice([0, 16, 1000]), "sched_seed": rnd.randrange(1, 2 ** 31), "via": "gstrf", "u": 1.0,
+         "light": 1, "timeout_ms": 120000, "prop": pid}
+    return {"set": s, "entries": ent, "family": "star_forest"}
+
+
+def _stress_job(args):
+    import core
+    (pid, seed, widx, count, variant) = args
+    import random
+    rnd = random.Random(seed * 7919 + widx * 104729 + 5)
+    r = core.Runner(variant); r.start()
+    out = {"n": 0, "nt": 0, "fails": [], "timeouts": 0}
+    for k in range(count):
+        n = rnd.choice([300, 800, 2000, 3000]); P = rnd.choice([3, 4, 8, 8, 16]); hubs = rnd.choice([1, 1, 2, 5])
+        case = star_forest_case(pid, n, P, hubs, rnd.randrange(1, 2 ** 31), rnd.choice(["d", "d", "s", "z"]))
+        text = core.render(case); v = r.run(text)
+        if v.get("v") == "timeout": out["timeouts"] += 1; continue
+        out["n"] += 1
+        if v.get("f", {}).get("thr_panels", 0) >= 2: out["nt"] += 1
+        if v.get("v") in ("fail", "crash", "libexit"): out["fails"].append((text, v)); break
+    r.close()
+    return out
+
+
+def free_stress_phase(pid, tier, seed, variant="asan"):
+    """large star forests under free-running threads (races the token-passing controller cannot split, e.g. an unlocked
+    read-modify-write): termination is decided by the progress-based deadlock detector, not by a wall-clock limit"""
+    import multiprocessing as mp, os
+    import core
+    nw = 6; per = 10 if tier == "quick" else 120
+    with mp.get_context("fork").Pool(nw) as pool:
+        res = pool.map(_stress_job, [(pid, seed, w, per, variant) for w in range(nw)], chunksize=1)
+    out = {"violations": [], "evaluations": 0, "distinct_nontrivial": 0, "stress_cases": 0, "stress_timeouts_inconclusive": 0,
+           "stress_rule": "star forests n in {300..3000}, nprocs in {3,4,8,16}, free-running with injected delays; deadlock = every live worker spun 100000 times within one progress epoch"}
+    for r in res:
+        out["evaluations"] += r["n"]; out["distinct_nontrivial"] += r["nt"]; out["stress_cases"] += r["n"]; out["stress_timeouts_inconclusive"] += r["timeouts"]
+        for (text, v) in r["fails"]:
+            os.makedirs(os.path.join(core.VERIF, "replays", "found"), exist_ok=True)
+            path = os.path.join(core.VERIF, "replays", "found", "%s_%s.case" % (pid, core.case_hash(text)))
+            open(path, "w").write(text)
+            out["violations"].append((path, v))
+    return out
